@@ -13,7 +13,7 @@
 // (ext) sl tokens: N<int>:<hex> sline_newdata with the int length as given; c igris::sline::clear;
 //                  s<len>,<cur> igris::sline::set_size_and_cursor
 #include "common/hv.h"
-#include "C15/iface.h"
+#include "C15/oracle.h"
 #include <deque>
 #include <memory>
 #include <functional>
@@ -25,9 +25,6 @@
 
 static_assert(sizeof(void *) == 8 && (char)-1 < 0, "LP64, char signed");
 
-using hv::hex;
-using hv::out;
-using namespace c15;
 
 // ===================================================================== C family
 namespace c15
@@ -70,6 +67,8 @@ namespace c15
         bool set_size_cursor(unsigned, unsigned) override { return false; }
         int backspace(unsigned n) override { return sline_backspace(&s, n); }
         int del(unsigned n) override { return sline_delete(&s, n); }
+        int backspace_i(int n) override { return sline_backspace(&s, (unsigned int)n); }
+        int del_i(int n) override { return sline_delete(&s, (unsigned int)n); }
         int left() override { return sline_left(&s); }
         int right() override { return sline_right(&s); }
         void reset() override { sline_reset(&s); }
@@ -106,7 +105,7 @@ namespace c15
         unsigned cursor() override { return rl.line.cursor; }
         std::string text() override { return std::string(rl.line.buf, rl.line.len); }
         int linecpy(char *dst, size_t maxlen) override { return readline_linecpy(&rl, dst, maxlen); }
-        int state() override { return rl.state; }
+        int state() override { return C15_CANON_RSTATE(rl.state); }
         std::string tail() override
         {
             // the ring as the C strings its slots hold (round 3: the bytes behind a slot's terminator are not
@@ -118,7 +117,7 @@ namespace c15
                 size_t n = strnlen((const char *)h.p + (size_t)i * cap, cap);
                 slots += (i ? "." : "") + hex(h.p + (size_t)i * cap, n);
             }
-            return " H" + std::to_string(rl.headhist) + "," + std::to_string(rl.curhist) + "," + std::to_string(rl.state) +
+            return " H" + std::to_string(rl.headhist) + "," + std::to_string(rl.curhist) + "," + std::to_string(C15_CANON_RSTATE(rl.state)) +
                    "," + (depth && cap ? slots : std::string("-"));
         }
     };
@@ -148,11 +147,32 @@ namespace c15
         std::string pstore;
         void set_prompt(const std::string &p) override { pstore = p; v.prefix_string = pstore.c_str(); } // the C API has no setter
         void set_echo(bool e) override { v.echo = e ? 1 : 0; }
-        int state() override { return v.state; }
-        int rlstate() override { return v.rl.state; }
-        unsigned len() override { return v.rl.line.len; }
-        unsigned cursor() override { return v.rl.line.cursor; }
-        std::string text() override { return std::string(v.rl.line.buf, v.rl.line.len); }
+        // internals of struct vterm_automate (round 3b: optional, see iface.h).  `rl.line` with buf / len / cursor
+        // and `rl.state` are the state the property's record names; `state` of the terminal itself is not.
+        template <class V> static constexpr bool vis = requires(V &x) { x.rl.line.len; x.rl.line.cursor; x.rl.line.buf; };
+        template <class V> static int st_of(V &x)
+        {
+            if constexpr (requires { (int)x.state; }) return (int)x.state;
+            else return NOT_VISIBLE;
+        }
+        template <class V> static int rst_of(V &x)
+        {
+            if constexpr (requires { (int)x.rl.state; }) return C15_CANON_RSTATE((int)x.rl.state);
+            else return NOT_VISIBLE;
+        }
+        template <class V> static unsigned len_of(V &x) { if constexpr (vis<V>) return x.rl.line.len; else return 0; }
+        template <class V> static unsigned cur_of(V &x) { if constexpr (vis<V>) return x.rl.line.cursor; else return 0; }
+        template <class V> static std::string text_of(V &x)
+        {
+            if constexpr (vis<V>) return std::string(x.rl.line.buf, x.rl.line.len);
+            else return std::string();
+        }
+        bool line_visible() override { return vis<struct vterm_automate>; }
+        int state() override { return st_of(v); }
+        int rlstate() override { return rst_of(v); }
+        unsigned len_() override { return len_of(v); }
+        unsigned cursor_() override { return cur_of(v); }
+        std::string text_() override { return text_of(v); }
     };
     ivterm *make_vterm_c(unsigned cap, unsigned depth, bool echo) { return new vterm_c(cap, depth, echo); }
 
@@ -173,8 +193,18 @@ namespace c15
 
 namespace c15
 {
-    // widths and constants the model embeds (Drv.lean consts2Line)
-    std::string consts2_c()
+    // Constants the model embeds (Drv.lean consts2Line).  Round 3b: the COMPARED result holds only what the public
+    // interface fixes - the width of the `int16_t` key parameter, of the `unsigned int` count parameter of
+    // sline_backspace / sline_delete and of the `int` length of sline_newdata (read from the function types),
+    // VTERM_INIT_STEP, the signedness of char, the bytes vt100_left needs for INT_MAX.  The widths of struct fields
+    // and the numbers behind READLINE_STATE_* are not fixed by the property (a widened counter or renumbered state
+    // is a harmless change): they are reported as TAGS (w-<field>=<bytes>, 0 = the field cannot be named).
+    template <class F> struct arg2;
+    template <class R, class A, class B> struct arg2<R (*)(A, B)> { typedef B type; };
+    template <class F> struct arg3;
+    template <class R, class A, class B, class C> struct arg3<R (*)(A, B, C)> { typedef C type; };
+#define C15_FIELD_SIZE(obj, f) ([](auto &o_) -> size_t { if constexpr (requires { sizeof(o_.f); }) return sizeof(o_.f); else return 0; }(obj))
+    std::string consts2_c(std::string &tags)
     {
         struct sline sl;
         struct readline rl;
@@ -182,598 +212,45 @@ namespace c15
         char b[16];
         int n = vt100_left(b, 2147483647);
         std::string s;
-        size_t v[] = {sizeof sl.cap, sizeof sl.len, sizeof sl.cursor, sizeof rl.state, sizeof rl.last, sizeof rl.lastsize,
-                      sizeof rl.history_size, sizeof rl.headhist, sizeof rl.curhist, sizeof vt.state, sizeof vt.echo, sizeof(int16_t)};
-        for (size_t x : v) s += std::to_string(x) + " ";
-        s += std::to_string(VTERM_INIT_STEP) + " " + std::to_string(READLINE_STATE_NORMAL) + " " + std::to_string(READLINE_STATE_ESCSEQ) + " " +
-             std::to_string(READLINE_STATE_ESCSEQ_MOVE) + " " + std::to_string(READLINE_STATE_ESCSEQ_MOVE_WAIT_7E) + " " +
-             std::to_string((char)-1 < 0 ? 1 : 0) + " " + consts2_x() + " " + std::to_string(n);
+        s += std::to_string(sizeof(arg2<decltype(&vterm_automate_newdata)>::type)) + " ";
+        s += std::to_string(sizeof(arg2<decltype(&sline_backspace)>::type)) + " " + std::to_string(sizeof(arg2<decltype(&sline_delete)>::type)) + " ";
+        s += std::to_string(sizeof(arg3<decltype(&sline_newdata)>::type)) + " ";
+        s += std::to_string(VTERM_INIT_STEP) + " " + std::to_string((char)-1 < 0 ? 1 : 0) + " " + std::to_string(n);
+        auto w = [&](const char *name, size_t x) { tags += std::string(tags.empty() ? "" : ",") + "w-" + name + "=" + std::to_string(x); };
+        w("cap", C15_FIELD_SIZE(sl, cap)); w("len", C15_FIELD_SIZE(sl, len)); w("cursor", C15_FIELD_SIZE(sl, cursor));
+        w("rl.state", C15_FIELD_SIZE(rl, state)); w("rl.last", C15_FIELD_SIZE(rl, last)); w("rl.lastsize", C15_FIELD_SIZE(rl, lastsize));
+        w("history_size", C15_FIELD_SIZE(rl, history_size)); w("headhist", C15_FIELD_SIZE(rl, headhist)); w("curhist", C15_FIELD_SIZE(rl, curhist));
+        w("vt.state", C15_FIELD_SIZE(vt, state)); w("vt.echo", C15_FIELD_SIZE(vt, echo));
+        tags += ",rstate-numbers=" + std::to_string(READLINE_STATE_NORMAL) + "/" + std::to_string(READLINE_STATE_ESCSEQ) + "/" +
+                std::to_string(READLINE_STATE_ESCSEQ_MOVE) + "/" + std::to_string(READLINE_STATE_ESCSEQ_MOVE_WAIT_7E);
+        tags += "," + consts2_x();
         (void)sl; (void)rl; (void)vt;
         return s;
     }
 }
 
-// ================================================================== the oracle
-// Reference editor: two strings around the cursor, a capacity, a list of
-// remembered lines.  Written from the key semantics, shares nothing with igris.
-struct ref_editor
-{
-    size_t cap, depth;
-    bool ctrlc; // terminal level: 0x03 aborts the line; readline level: 0x03 is a character
-    std::string left, right;
-    std::deque<std::string> hist; // most recent first, always `depth` entries (empty lines at first)
-    size_t browse = 0;            // 0: editing; k: showing the k-th most recent line
-    int esc = 0;                  // 0 text, 1 after ESC, 2 after ESC [, 3 after ESC [ 3
-    uint8_t prev = 0;             // previous byte (0 after the swallowed half of a CR LF pair)
-
-    ref_editor(size_t cap_, size_t depth_, bool ctrlc_) : cap(cap_), depth(depth_), ctrlc(ctrlc_), hist(depth_, std::string()) {}
-    std::string line() const { return left + right; }
-    size_t len() const { return left.size() + right.size(); }
-    void load(const std::string &s)
-    {
-        left = s;
-        right.clear();
-    }
-    void fresh_line()
-    {
-        left.clear();
-        right.clear();
-        browse = 0;
-        esc = 0;
-    }
-    // returns: 0 nothing, 1 line accepted (in `accepted`), 2 interrupt
-    int key(uint8_t c, std::string &accepted)
-    {
-        if (ctrlc && c == 3)
-        {
-            fresh_line();
-            return 2;
-        }
-        switch (esc)
-        {
-        case 1:
-            esc = (c == '[') ? 2 : 0;
-            prev = c;
-            return 0;
-        case 2:
-            esc = 0;
-            prev = c;
-            switch (c)
-            {
-            case 'A':
-                if (depth && browse < depth)
-                    load(hist[browse++]);
-                break;
-            case 'B':
-                if (depth && browse > 0)
-                {
-                    browse--;
-                    load(browse ? hist[browse - 1] : std::string());
-                }
-                break;
-            case 'C':
-                if (!right.empty())
-                {
-                    left.push_back(right[0]);
-                    right.erase(0, 1);
-                }
-                break;
-            case 'D':
-                if (!left.empty())
-                {
-                    right.insert(right.begin(), left.back());
-                    left.pop_back();
-                }
-                break;
-            case '3':
-                if (!right.empty())
-                    right.erase(0, 1);
-                esc = 3;
-                break;
-            }
-            return 0;
-        case 3:
-            esc = 0;
-            prev = c;
-            return 0;
-        }
-        if (c == '\r' || c == '\n')
-        {
-            if ((prev == '\r' || prev == '\n') && prev != c)
-            {
-                prev = 0;
-                return 0;
-            }
-            prev = c;
-            accepted = line();
-            if (depth && !accepted.empty() && accepted != hist[0])
-            {
-                // remembered as a C string: up to the first NUL (a NUL can be typed, it is not a key of the property)
-                hist.push_front(accepted.substr(0, accepted.find('\0')));
-                hist.pop_back();
-            }
-            browse = 0;
-            return 1;
-        }
-        prev = c;
-        if (c == 8)
-        {
-            if (!left.empty())
-                left.pop_back();
-        }
-        else if (c == 27)
-            esc = 1;
-        else if (len() + 1 < cap)
-            left.push_back((char)c);
-        return 0;
-    }
-};
-
-// VT100 interpreter for one row: enough for what a line editor may send.
-struct ref_screen
-{
-    std::string row;
-    size_t col = 0;
-    int st = 0;
-    long arg = -1;
-    bool unknown = false; // saw something this interpreter does not understand
-    void put(uint8_t b)
-    {
-        switch (st)
-        {
-        case 0:
-            if (b == 27)
-                st = 1;
-            else if (b == '\r')
-                col = 0;
-            else if (b == '\n')
-                row.clear();
-            else if (b >= 0x20 && b <= 0x7e)
-            {
-                if (col > row.size())
-                    row.append(col - row.size(), ' ');
-                if (col == row.size())
-                    row.push_back((char)b);
-                else
-                    row[col] = (char)b;
-                col++;
-            }
-            else
-                unknown = true;
-            break;
-        case 1:
-            if (b == '[')
-            {
-                st = 2;
-                arg = -1;
-            }
-            else
-            {
-                st = 0;
-                unknown = true;
-            }
-            break;
-        case 2:
-            if (b >= '0' && b <= '9')
-                arg = (arg < 0 ? 0 : arg) * 10 + (b - '0');
-            else
-            {
-                long n = arg <= 0 ? 1 : arg;
-                if (b == 'D')
-                    col = (size_t)n > col ? 0 : col - n;
-                else if (b == 'C')
-                    col += n;
-                else if (b == 'K')
-                {
-                    if (col < row.size())
-                        row.resize(col);
-                }
-                else
-                    unknown = true;
-                st = 0;
-            }
-            break;
-        }
-    }
-    void feed(const std::string &s)
-    {
-        for (unsigned char c : s)
-            put(c);
-    }
-};
-
-// A terminal with W columns and auto-wrap (xterm / VT100 with DECAWM on), as a grid: a glyph in the last column
-// leaves the cursor there with the wrap pending; the next glyph goes to column 0 of the next row.  CUB / CUF stay on
-// the row.  Written on its own (grid + cursor), shares nothing with the Lean WScreen.
-struct wterm
-{
-    size_t W;
-    std::vector<std::string> grid{std::string()};
-    size_t r = 0, c = 0;
-    bool pend = false;
-    int st = 0;
-    long arg = -1;
-    explicit wterm(size_t w) : W(w) {}
-    void glyph(char b)
-    {
-        if (pend)
-        {
-            r++;
-            if (r == grid.size()) grid.push_back(std::string());
-            c = 0;
-            pend = false;
-        }
-        std::string &row = grid[r];
-        if (c > row.size()) row.append(c - row.size(), ' ');
-        if (c == row.size()) row.push_back(b);
-        else row[c] = b;
-        if (c + 1 < W) c++;
-        else pend = true;
-    }
-    void put(uint8_t b)
-    {
-        if (st == 0)
-        {
-            if (b == 27) st = 1;
-            else if (b == '\r') { c = 0; pend = false; }
-            else if (b == '\n')
-            {
-                r++;
-                if (r == grid.size()) grid.push_back(std::string());
-                pend = false;
-            }
-            else if (b == 8) { if (c) c--; pend = false; }
-            else if (b >= 0x20 && b <= 0x7e) glyph((char)b);
-        }
-        else if (st == 1)
-        {
-            if (b == '[') { st = 2; arg = -1; }
-            else st = 0;
-        }
-        else
-        {
-            if (b >= '0' && b <= '9') arg = (arg < 0 ? 0 : arg) * 10 + (b - '0');
-            else
-            {
-                size_t n = arg <= 0 ? 1 : (size_t)arg;
-                if (b == 'D') { c = n > c ? 0 : c - n; pend = false; }
-                else if (b == 'C') { c = c + n < W ? c + n : W - 1; pend = false; }
-                else if (b == 'K') { if (c < grid[r].size()) grid[r].resize(c); }
-                st = 0;
-            }
-        }
-    }
-    void feed(const std::string &s) { for (unsigned char ch : s) put(ch); }
-    std::string show() const { return std::to_string(r) + "," + std::to_string(c) + "," + (pend ? "1" : "0") + "," + hex(grid[r]); }
-};
-
-// Second, decoder-free oracle (the grammar of lean/IgrisModel/C15/Keys.lean): the typed bytes are cut into key
-// presses (level 1: Enter = CR | LF | CR LF | LF CR, Ctrl-C transparent for the pairing; level 2: ESC [ A/B/C/D,
-// ESC [ 3 x, unknown ESC x / ESC [ x ignored, Ctrl-C aborts a sequence) and a key-press editor consumes them.
-// No escape state, no "previous byte": the whole session is parsed at once.
-struct key_editor
-{
-    size_t cap, depth;
-    std::string left, right;
-    std::deque<std::string> hist;
-    size_t browse = 0;
-    std::vector<std::string> events; // "X<hex>" / "S"
-    key_editor(size_t c, size_t d) : cap(c), depth(d), hist(d, std::string()) {}
-    enum { NL = -1, INTR = -2 };
-    void fresh() { left.clear(); right.clear(); browse = 0; }
-    void run(const std::string &bytes)
-    {
-        std::vector<int> sy;
-        int pair = -1; // the byte that would be the second half of the Enter just seen
-        for (unsigned char c : bytes)
-        {
-            if (c == 3) sy.push_back(INTR);
-            else if (c == '\r' || c == '\n')
-            {
-                if (pair == c) pair = -1;
-                else { sy.push_back(NL); pair = c == '\r' ? '\n' : '\r'; }
-            }
-            else { sy.push_back(c); pair = -1; }
-        }
-        size_t i = 0, n = sy.size();
-        auto intr = [&]() { fresh(); events.push_back("S"); };
-        while (i < n)
-        {
-            int s = sy[i++];
-            if (s == INTR) intr();
-            else if (s == NL)
-            {
-                std::string l = left + right;
-                events.push_back("X" + hex(l));
-                if (depth && !l.empty() && l != hist[0]) { hist.push_front(l.substr(0, l.find('\0'))); hist.pop_back(); }
-                fresh();
-            }
-            else if (s == 8) { if (!left.empty()) left.pop_back(); }
-            else if (s != 27) { if (left.size() + right.size() + 1 < cap) left.push_back((char)s); }
-            else
-            {
-                if (i == n) break;
-                int d = sy[i++];
-                if (d == INTR) { intr(); continue; }
-                if (d != '[') continue; // unknown ESC x (x may be Enter)
-                if (i == n) break;
-                int e = sy[i++];
-                if (e == INTR) { intr(); continue; }
-                switch (e)
-                {
-                case 'A': if (depth && browse < depth) { left = hist[browse++]; right.clear(); } break;
-                case 'B': if (depth && browse > 0) { browse--; left = browse ? hist[browse - 1] : std::string(); right.clear(); } break;
-                case 'C': if (!right.empty()) { left.push_back(right[0]); right.erase(0, 1); } break;
-                case 'D': if (!left.empty()) { right.insert(right.begin(), left.back()); left.pop_back(); } break;
-                case '3':
-                    if (!right.empty()) right.erase(0, 1);
-                    if (i < n) { if (sy[i] == INTR) intr(); i++; }
-                    break;
-                default: break; // unknown ESC [ x
-                }
-            }
-        }
-    }
-};
-
-
-static bool screen_safe(uint8_t c) { return (c >= 0x20 && c <= 0x7e) || c == 8 || c == 13 || c == 10 || c == 27 || c == 3; }
-
-// one terminal session: implementation, reference editor and screen side by side
-struct session
-{
-    std::unique_ptr<ivterm> v;
-    ref_editor ref;
-    ref_screen scr;
-    bool cxx, echo, safe = true, pending_prompt = true; // nothing is printed before the first call
-    unsigned cap;
-    std::string prompt_now = "$ ", PROMPT = "$ "; // what set_prompt stored last / what the current row starts with
-    std::string fail;
-    bool want_record = true;
-    unsigned tagbits = 0;
-    static const char *tagname(int i)
-    {
-        static const char *N[] = {"enter-empty", "enter-line", "ctrl-c", "hist-recall", "hist-recall-deep", "recall-cursor-midline",
-                                  "hist-recall-nonempty", "midline-redraw", "full-line-key", "crlf-pair", "delete-key", 0};
-        return N[i];
-    }
-    void tag(const char *t)
-    {
-        for (int i = 0; tagname(i); i++)
-            if (!strcmp(tagname(i), t))
-                tagbits |= 1u << i;
-    }
-    static std::string tagstr(unsigned bits)
-    {
-        std::string r;
-        for (int i = 0; tagname(i); i++)
-            if (bits & (1u << i))
-                r += std::string(r.empty() ? "" : ",") + tagname(i);
-        return r;
-    }
-    void bad(const std::string &w, const std::string &keys)
-    {
-        if (fail.empty())
-            fail = w + " after keys " + hex(keys);
-    }
-    std::string keys;
-    std::vector<std::string> allev; // every callback event of the session, in order
-    bool last_accept = false;
-    // the whole session against the key grammar (decoder-free oracle)
-    void check_grammar(unsigned depth)
-    {
-        key_editor ke(cap, depth);
-        ke.run(keys);
-        if (ke.events != allev)
-        {
-            size_t i = 0;
-            while (i < ke.events.size() && i < allev.size() && ke.events[i] == allev[i]) i++;
-            bad("callback event #" + std::to_string(i) + " is " + (i < allev.size() ? allev[i] : std::string("missing")) +
-                    ", the key grammar expects " + (i < ke.events.size() ? ke.events[i] : std::string("none")),
-                keys);
-        }
-        else if (!(cxx && last_accept) && (v->text() != ke.left + ke.right || v->cursor() != ke.left.size()))
-            bad("final line / cursor differ from the key-press editor's '" + hex(ke.left + ke.right) + "' / " + std::to_string(ke.left.size()), keys);
-    }
-    session(bool cxx_, unsigned cap_, unsigned depth, bool echo_)
-        : v(cxx_ ? make_vterm_x(cap_, depth, echo_) : make_vterm_c(cap_, depth, echo_)), ref(cap_, depth, true), cxx(cxx_), echo(echo_), cap(cap_)
-    {
-    }
-    static bool printable(const std::string &p)
-    {
-        for (unsigned char ch : p) if (ch < 0x20 || ch > 0x7e) return false;
-        return true;
-    }
-    void set_prompt(const std::string &p)
-    {
-        prompt_now = p;
-        v->set_prompt(p);
-    }
-    void set_echo(bool e)
-    {
-        echo = e;
-        safe = false; // the screen has missed (or will miss) output: only lines, events, bounds are judged from here on
-        v->set_echo(e);
-    }
-    void prompt_printed()
-    {
-        PROMPT = prompt_now;
-        if (!printable(PROMPT)) safe = false; // a prompt the screen cannot show (witness theorem)
-    }
-    std::string init_step()
-    {
-        v->echoed.clear();
-        v->evs.clear();
-        bool owed = pending_prompt;
-        v->init_step();
-        if (owed) prompt_printed();
-        pending_prompt = false;
-        if (!v->evs.empty()) bad("callback event during an init step", keys);
-        if (echo ? v->echoed != (owed ? PROMPT : std::string()) : !v->echoed.empty())
-            bad("init step wrote '" + hex(v->echoed) + "'", keys);
-        scr.feed(v->echoed);
-        check_screen();
-        return v->echoed;
-    }
-    void check_screen()
-    {
-        if (!echo || !safe)
-            return;
-        std::string want = (pending_prompt ? std::string() : PROMPT) + ref.line();
-        size_t wcol = (pending_prompt ? 0 : PROMPT.size()) + ref.left.size();
-        if (scr.unknown)
-            bad("terminal output contains a sequence outside {printable, CR, LF, ESC[nD, ESC[nC, ESC[K}", keys);
-        else if (scr.row != want)
-            bad("screen row '" + scr.row + "' != prompt + line '" + want + "'", keys);
-        else if (scr.col != wcol)
-            bad("screen cursor column " + std::to_string(scr.col) + " != " + std::to_string(wcol), keys);
-    }
-    // returns the canonical record of this key.  mode 0: (int16_t)(unsigned char)c; mode 1: the byte held in a
-    // `char` and passed as it is (what igris' own callers do); mode 2: the int16_t `raw` (c = its low 8 bits)
-    std::string key(uint8_t c, int mode = 0, int16_t raw = 0)
-    {
-        if (pending_prompt) prompt_printed(); // the call starts with the prologue
-        keys.push_back((char)c);
-        if (!screen_safe(c))
-            safe = false;
-        v->echoed.clear();
-        v->evs.clear();
-        size_t hist_browse_before = ref.browse;
-        bool midline = !ref.right.empty();
-        bool full = ref.len() + 1 >= cap;
-        int esc_before = ref.esc;
-        if (mode == 0) v->key(c);
-        else if (mode == 1)
-        {
-            char ch = (char)c;
-            v->key16(ch);
-        }
-        else v->key16(raw);
-        for (auto &e : v->evs) allev.push_back(e.exec ? "X" + hex(e.line) : std::string("S"));
-        std::string acc;
-        int r = ref.key(c, acc);
-        last_accept = r == 1;
-        // ---- events
-        std::string es;
-        if (want_record)
-        {
-            for (auto &e : v->evs)
-                es += std::string(es.empty() ? "" : "+") + (e.exec ? "X" + hex(e.line) : "S");
-            if (es.empty())
-                es = "-";
-        }
-        if (r == 1)
-        {
-            if (v->evs.size() != 1 || !v->evs[0].exec)
-                bad("Enter did not produce exactly one execute callback", keys);
-            else
-            {
-                if (v->evs[0].line != acc)
-                    bad("line handed to execute '" + hex(v->evs[0].line) + "' != reference editor's '" + hex(acc) + "'", keys);
-                if (!v->evs[0].nul_ok)
-                    bad("line handed to execute is not NUL-terminated", keys);
-            }
-            tag(acc.empty() ? "enter-empty" : "enter-line");
-        }
-        else if (r == 2)
-        {
-            if (v->evs.size() != 1 || v->evs[0].exec)
-                bad("Ctrl-C did not produce exactly one SIGINT", keys);
-            tag("ctrl-c");
-        }
-        else if (!v->evs.empty())
-            bad("callback event on a key that neither accepts nor aborts the line", keys);
-        // after accept / abort the terminal starts a fresh line
-        if (r == 1)
-            ref.fresh_line();
-        // ---- the automata stay in their enumerated states (the `default:` branches are dead)
-        {
-            int st = v->state(), rs = v->rlstate();
-            if (!(st == 2 || (cxx && r == 1 && st == 1)))
-                bad("terminal automaton state " + std::to_string(st) + " after a key", keys);
-            if (rs < 0 || rs > 3 || rs != ref.esc)
-                bad("readline escape state " + std::to_string(rs) + " != reference decoder's " + std::to_string(ref.esc), keys);
-        }
-        // ---- editor state
-        unsigned len = v->len(), cur = v->cursor();
-        if (!(cur <= len && len < cap))
-            bad("bounds: cursor " + std::to_string(cur) + " len " + std::to_string(len) + " cap " + std::to_string(cap), keys);
-        else if (cxx && r == 1)
-        {
-            // igris::vtermxx returns right after the execute callback: the line is
-            // reset (and the prompt printed) at the start of the next call
-            if (v->text() != acc)
-                bad("edit buffer after Enter != accepted line", keys);
-        }
-        else if (v->text() != ref.line())
-            bad("edit buffer '" + hex(v->text()) + "' != reference line '" + hex(ref.line()) + "'", keys);
-        else if (cur != ref.left.size())
-            bad("cursor " + std::to_string(cur) + " != reference cursor " + std::to_string(ref.left.size()), keys);
-        // ---- echo off: the write callback is never used
-        if (!echo && !v->echoed.empty())
-            bad("echo is off but " + std::to_string(v->echoed.size()) + " bytes were written", keys);
-        // ---- screen
-        pending_prompt = cxx && r == 1;
-        if (r == 2 || (r == 1 && !cxx)) prompt_printed(); // the new prompt ends this call's output
-        scr.feed(v->echoed);
-        check_screen();
-        // ---- coverage markers
-        if (ref.browse != hist_browse_before && ref.browse)
-        {
-            tag("hist-recall");
-            if (ref.browse >= 2)
-                tag("hist-recall-deep");
-            if (midline)
-                tag("recall-cursor-midline");
-            if (!ref.line().empty())
-                tag("hist-recall-nonempty");
-        }
-        if (midline && v->echoed.size() > 3)
-            tag("midline-redraw");
-        if (full && c >= 0x20 && c < 0x7f && esc_before == 0 && r == 0)
-            tag("full-line-key");
-        if (r == 0 && (c == '\r' || c == '\n') && ref.prev == 0)
-            tag("crlf-pair");
-        if (ref.esc == 3)
-            tag("delete-key");
-        if (!want_record)
-            return std::string();
-        return std::to_string(len) + "," + std::to_string(cur) + "," + hex(v->echoed) + "," + es;
-    }
-};
-
-// ------------------------------------------------------------- FNV-1a digest
-struct fnv
-{
-    uint64_t h = 0xcbf29ce484222325ull;
-    void b(unsigned x) { h = (h ^ (uint64_t)(x & 255)) * 0x100000001b3ull; }
-    void bytes(const std::string &s)
-    {
-        b((unsigned)s.size());
-        for (unsigned char c : s)
-            b(c);
-    }
-    void key(ivterm &v)
-    {
-        b(v.len());
-        b(v.cursor());
-        bytes(v.echoed);
-        b((unsigned)v.evs.size());
-        for (auto &e : v.evs)
-            if (e.exec)
-            {
-                b(1);
-                bytes(e.line);
-            }
-            else
-                b(2);
-    }
-};
-
-static const std::vector<std::string> ALPHA_BYTES = {"a", "b", "\x08", "\r", "\n", "\x1b", "[", "A", "B", "C", "D", "3", "~", "\x03", "x"};
-static const std::vector<std::string> ALPHA_KEYS = {"a", "b", "\x08", "\r", "\n", "\x1b[A", "\x1b[B", "\x1b[D", "\x1b[C", "\x1b[3~", "\x03"};
+// (the oracles and the session are in C15/oracle.h, the terminal-level ops in C15/term.cpp)
+void run_vt(const std::vector<std::string> &w, out &o);
+void run_vtx(const std::vector<std::string> &w, out &o);
+void run_vs(const std::vector<std::string> &w, out &o);
+void run_vw(const std::vector<std::string> &w, out &o);
+void run_tw(const std::vector<std::string> &w, out &o);
+void run_vl(const std::vector<std::string> &w, out &o);
+void premain_report(std::string &result, std::string &fail);
 
 // ===================================================================== run
+// which region of the count parameter an op reached (round 3b: the whole range of the C type)
+static void count_tags(out &o, const char *what, unsigned n, size_t cursor, size_t there, bool as_int)
+{
+    std::string w(what);
+    if (n == there) o.tag((w + "-count-exact").c_str());
+    if ((size_t)n == there + 1) o.tag((w + "-count-one-more").c_str());
+    if (n > 0x7fffffffu) o.tag((w + "-count-gt-INT_MAX").c_str());
+    if (n == 0xffffffffu) o.tag((w + "-count-UINT_MAX").c_str());
+    if (cursor && (uint64_t)cursor + n > 0xffffffffull) o.tag((w + "-cursor+count-wraps").c_str());
+    if (as_int) o.tag((w + ((int)n < 0 ? "-int-negative" : "-int")).c_str());
+}
+
 static void run_sl(const std::vector<std::string> &w, out &o)
 {
     bool cxx = w[1] == "x";
@@ -882,26 +359,36 @@ static void run_sl(const std::vector<std::string> &w, out &o)
             break;
         }
         case 'b':
+        case 'B':
         {
-            unsigned n = (unsigned)strtoul(arg.c_str(), 0, 10);
-            int r = s->backspace(n);
+            // b<unsigned>: the count as the unsigned int of sline_backspace; B<int>: as an int through
+            // igris::sline::backspace(int) (-1 = UINT_MAX, "everything left of the cursor")
+            bool as_int = t[0] == 'B';
+            unsigned n = as_int ? (unsigned)(int)strtol(arg.c_str(), 0, 10) : (unsigned)strtoul(arg.c_str(), 0, 10);
+            size_t cur0 = L.size();
+            int r = as_int ? s->backspace_i((int)n) : s->backspace(n);
             size_t k = std::min<size_t>(n, L.size());
             L.erase(L.size() - k);
-            if (r != (int)k) fail("backspace result");
+            if (r != (int)k) fail("backspace removed " + std::to_string(r) + " characters, min(count, cursor) = " + std::to_string(k));
             if (k && !R.empty()) o.tag("backspace-midline");
             if (k < n) o.tag("backspace-clamped");
+            count_tags(o, "backspace", n, cur0, cur0, as_int);
             ret = std::to_string(r);
             break;
         }
         case 'd':
+        case 'D':
         {
-            unsigned n = (unsigned)strtoul(arg.c_str(), 0, 10);
-            int r = s->del(n);
+            bool as_int = t[0] == 'D';
+            unsigned n = as_int ? (unsigned)(int)strtol(arg.c_str(), 0, 10) : (unsigned)strtoul(arg.c_str(), 0, 10);
+            size_t cur0 = L.size(), right0 = R.size();
+            int r = as_int ? s->del_i((int)n) : s->del(n);
             size_t k = std::min<size_t>(n, R.size());
             R.erase(0, k);
-            if (r != (int)k) fail("delete result");
+            if (r != (int)k) fail("delete removed " + std::to_string(r) + " characters, min(count, characters right of the cursor) = " + std::to_string(k));
             if (k) o.tag("delete");
             if (k < n) o.tag("delete-clamped");
+            count_tags(o, "delete", n, cur0, right0, as_int);
             ret = std::to_string(r);
             break;
         }
@@ -1065,213 +552,6 @@ static void run_lc(const std::vector<std::string> &w, out &o)
     o.result = std::to_string(n) + " " + hex(dst.p, maxlen);
 }
 
-static void run_vt(const std::vector<std::string> &w, out &o)
-{
-    bool cxx = w[1] == "x";
-    unsigned cap = (unsigned)strtoul(w[2].c_str(), 0, 10), depth = (unsigned)strtoul(w[3].c_str(), 0, 10);
-    bool echo = w[4] != "0";
-    auto keys = hv::unhex(w[5]);
-    session s(cxx, cap, depth, echo);
-    std::string res = "I" + hex(s.init_step());
-    for (uint8_t c : keys)
-        res += " " + s.key(c);
-    s.check_grammar(depth);
-    o.result = res;
-    if (!s.fail.empty()) o.fail(s.fail);
-    o.tags = session::tagstr(s.tagbits);
-    if (depth >= 256) o.tag("depth-ge-256");
-    if (!echo) o.tag("echo-off");
-}
-
-static void run_vtx(const std::vector<std::string> &w, out &o)
-{
-    bool cxx = w[1] == "x";
-    unsigned cap = (unsigned)strtoul(w[2].c_str(), 0, 10), depth = (unsigned)strtoul(w[3].c_str(), 0, 10);
-    const auto &alpha = w[4] == "0" ? ALPHA_BYTES : ALPHA_KEYS;
-    unsigned L = (unsigned)strtoul(w[5].c_str(), 0, 10);
-    auto pv = hv::unhex(w[6]);
-    std::string prefix(pv.begin(), pv.end());
-    fnv d;
-    uint64_t count = 0;
-    std::string firstfail;
-    unsigned alltags = 0;
-    // digest of the prefix itself
-    {
-        session s(cxx, cap, depth, true);
-        d.bytes(s.init_step());
-        for (unsigned char c : prefix)
-        {
-            s.key(c);
-            d.key(*s.v);
-        }
-        if (!s.fail.empty()) firstfail = s.fail;
-    }
-    // preorder walk; every node is replayed from a fresh terminal
-    std::vector<size_t> path;
-    std::function<void(unsigned)> walk = [&](unsigned left)
-    {
-        if (!left) return;
-        for (size_t t = 0; t < alpha.size(); t++)
-        {
-            path.push_back(t);
-            session s(cxx, cap, depth, true);
-            s.want_record = false;
-            s.init_step();
-            for (unsigned char c : prefix) s.key(c);
-            for (size_t i = 0; i + 1 < path.size(); i++)
-                for (unsigned char c : alpha[path[i]]) s.key(c);
-            for (unsigned char c : alpha[t])
-            {
-                s.key(c);
-                d.key(*s.v);
-            }
-            count++;
-            s.check_grammar(depth);
-            if (!s.fail.empty() && firstfail.empty()) firstfail = s.fail;
-            alltags |= s.tagbits;
-            walk(left - 1);
-            path.pop_back();
-        }
-    };
-    walk(L);
-    o.result = std::to_string(count) + " " + hv::hexn(d.h, 16);
-    if (!firstfail.empty()) o.fail(firstfail);
-    o.tags = session::tagstr(alltags);
-    o.tag("tree");
-}
-
-
-// vs <c|x> <cap> <depth> <token>...   one terminal object, everything a caller can do between keys:
-//   k<hex> keys as (int16_t)(unsigned char)   c<hex> keys held in a `char` (the call path of igris' own callers)
-//   i<int> a raw int16_t   I init step   P<hex> set_prompt   E0 / E1 set_echo
-static void run_vs(const std::vector<std::string> &w, out &o)
-{
-    bool cxx = w[1] == "x";
-    unsigned cap = (unsigned)strtoul(w[2].c_str(), 0, 10), depth = (unsigned)strtoul(w[3].c_str(), 0, 10);
-    session s(cxx, cap, depth, true);
-    std::string res;
-    auto add = [&](const std::string &r) { res += (res.empty() ? "" : " ") + r; };
-    for (size_t i = 4; i < w.size(); i++)
-    {
-        const std::string &t = w[i];
-        std::string arg = t.substr(1);
-        switch (t[0])
-        {
-        case 'k':
-            for (uint8_t c : hv::unhex(arg)) add(s.key(c));
-            break;
-        case 'c':
-            for (uint8_t c : hv::unhex(arg))
-            {
-                add(s.key(c, 1));
-                o.tag(c >= 0x80 ? "char-path-high-byte" : "char-path");
-            }
-            break;
-        case 'i':
-        {
-            long v = strtol(arg.c_str(), 0, 10);
-            if (v == -1) add("I" + hex(s.init_step()));
-            else
-            {
-                add(s.key((uint8_t)(v & 0xff), 2, (int16_t)v));
-                o.tag(v < 0 ? "int16-negative" : v > 255 ? "int16-above-255" : "int16");
-            }
-            break;
-        }
-        case 'I':
-            add("I" + hex(s.init_step()));
-            o.tag("init-step-midway");
-            break;
-        case 'P':
-        {
-            auto d = hv::unhex(arg);
-            std::string p(d.begin(), d.end());
-            s.set_prompt(p);
-            add("=");
-            o.tag(session::printable(p) ? "set-prompt" : "set-prompt-unprintable");
-            break;
-        }
-        case 'E':
-            s.set_echo(arg != "0");
-            add("=");
-            o.tag("set-echo");
-            break;
-        default:
-            o.result = "bad-op";
-            return;
-        }
-    }
-    s.check_grammar(depth);
-    o.result = res.empty() ? "-" : res;
-    if (!s.fail.empty()) o.fail(s.fail);
-    if (!s.tagbits) return;
-    std::string ts = session::tagstr(s.tagbits);
-    o.tags += (o.tags.empty() ? "" : ",") + ts;
-}
-
-// vw <c|x> <cap> <depth> <W> <strict> <keys-hex>: the echoed bytes on a W-column terminal with auto-wrap.
-// Oracle: W >= |prompt| + cap: current row = prompt + line, column = |prompt| + cursor, no wrap pending after every
-// key.  strict = 1: for ANY W the rows since the prompt must be the text cut every W glyphs (a correct wrapped
-// display) - fails on narrow terminals (finding C15-narrow-screen).
-static void run_vw(const std::vector<std::string> &w, out &o)
-{
-    bool cxx = w[1] == "x";
-    unsigned cap = (unsigned)strtoul(w[2].c_str(), 0, 10), depth = (unsigned)strtoul(w[3].c_str(), 0, 10);
-    size_t W = strtoul(w[4].c_str(), 0, 10);
-    bool strict = w[5] == "1";
-    auto keys = hv::unhex(w[6]);
-    if (W < 2) { o.result = "bad-op"; return; }
-    session s(cxx, cap, depth, true);
-    wterm t(W);
-    t.feed(s.init_step());
-    size_t base = t.r; // grid row the current prompt starts on
-    std::string res = "I" + t.show();
-    bool fits = W >= s.PROMPT.size() + cap;
-    std::string fail;
-    bool wrapped = false;
-    for (uint8_t c : keys)
-    {
-        bool owed = s.pending_prompt;
-        s.key(c);
-        if (owed) base = t.r;
-        t.feed(s.v->echoed);
-        if (c == 3 || (s.last_accept && !s.cxx)) base = t.r; // this call ended with a new prompt
-        res += " " + t.show();
-        if (t.r > base) wrapped = true;
-        if (!s.safe || !fail.empty()) continue;
-        std::string text = (s.pending_prompt ? std::string() : s.PROMPT) + s.ref.line();
-        size_t idx = (s.pending_prompt ? 0 : s.PROMPT.size()) + s.ref.left.size();
-        if (fits)
-        {
-            if (t.grid[t.r] != text || t.c != idx || t.pend)
-                fail = "on " + std::to_string(W) + " columns the row is '" + t.grid[t.r] + "' column " + std::to_string(t.c) + (t.pend ? " (wrap pending)" : "") +
-                       ", expected '" + text + "' column " + std::to_string(idx) + " after keys " + hex(s.keys);
-        }
-        else if (strict)
-        {
-            // a correct wrapped display: rows base.. = text cut every W glyphs
-            std::vector<std::string> want;
-            for (size_t i = 0; i < text.size() || i == 0; i += W) want.push_back(text.substr(i, W));
-            std::vector<std::string> got(t.grid.begin() + base, t.grid.end());
-            while (got.size() > want.size() && got.back().empty()) got.pop_back();
-            if (got != want)
-            {
-                std::string g, x;
-                for (auto &r : got) g += "'" + r + "' ";
-                for (auto &r : want) x += "'" + r + "' ";
-                fail = "on " + std::to_string(W) + " columns the rows are " + g + "- a correct display of prompt + line shows " + x + "after keys " + hex(s.keys);
-            }
-        }
-    }
-    o.result = res;
-    if (!s.fail.empty()) o.fail(s.fail);
-    else if (!fail.empty()) o.fail(fail);
-    o.tag(fits ? (W == s.PROMPT.size() + cap ? "wterm-exact-fit" : "wterm-fits") : "wterm-narrow");
-    if (wrapped) o.tag("wterm-wrapped");
-}
-
-// lh <c|x> <cap> <depth> <maxlen> <keys-hex>: readline_linecpy with a HUGE maxlen (2^31 - 1 .. 2^32 + 1): the
-// destination really has maxlen bytes (lazily mapped); result: return value + the first min(maxlen, cap + 2) bytes
 #include <sys/mman.h>
 static void run_lh(const std::vector<std::string> &w, out &o)
 {
@@ -1305,63 +585,6 @@ static void run_lh(const std::vector<std::string> &w, out &o)
 
 // the session run BEFORE main() by a static object of the highest priority: the library must not depend on the
 // initialisation of any other static object
-static const char PREMAIN_KEYS[] = "ab\r\x1b[Ac\x1b[Dd\n\x03\x1b[A\x1b[A\r";
-struct premain_t
-{
-    std::string result, fail;
-    premain_t()
-    {
-        for (int var = 0; var < 2; var++)
-        {
-            session s(var == 1, 4, 2, true);
-            std::string res = "I" + hex(s.init_step());
-            for (const char *p = PREMAIN_KEYS; *p; p++) res += " " + s.key((uint8_t)*p);
-            s.check_grammar(2);
-            result += (var ? " | " : "") + res;
-            if (!s.fail.empty() && fail.empty()) fail = s.fail;
-        }
-    }
-};
-static premain_t premain_obj __attribute__((init_priority(101)));
-
-// tw <cap> <depth> <echo> <keys-hex>: vterm.c and igris::vtermxx side by side, compared DIRECTLY with each other
-// (events, line, cursor after every key; written bytes equal up to the prompt vtermxx still owes)
-static void run_tw(const std::vector<std::string> &w, out &o)
-{
-    unsigned cap = (unsigned)strtoul(w[1].c_str(), 0, 10), depth = (unsigned)strtoul(w[2].c_str(), 0, 10);
-    bool echo = w[3] != "0";
-    auto keys = hv::unhex(w[4]);
-    session a(false, cap, depth, echo), b(true, cap, depth, echo);
-    std::string res = "I" + hex(a.init_step());
-    std::string wa = a.v->echoed, wb;
-    b.init_step();
-    wb = b.v->echoed;
-    std::string sofar, fail;
-    for (uint8_t c : keys)
-    {
-        sofar.push_back((char)c);
-        res += " " + a.key(c);
-        b.key(c);
-        wa += a.v->echoed;
-        wb += b.v->echoed;
-        if (!fail.empty()) continue;
-        auto evs = [](ivterm &v) { std::string s; for (auto &e : v.evs) s += e.exec ? "X" + hex(e.line) + ";" : "S;"; return s; };
-        bool owes = b.pending_prompt;
-        if (evs(*a.v) != evs(*b.v)) fail = "callback events differ: vterm.c " + evs(*a.v) + " vtermxx " + evs(*b.v);
-        else if (!owes && (a.v->text() != b.v->text() || a.v->cursor() != b.v->cursor())) fail = "line / cursor differ: vterm.c '" + hex(a.v->text()) + "' vtermxx '" + hex(b.v->text()) + "'";
-        else if (wa != wb + (owes && echo ? b.prompt_now : std::string())) fail = "written bytes differ (beyond the prompt vtermxx owes)";
-        else if (a.v->rlstate() != b.v->rlstate() && !owes) fail = "escape states differ";
-        if (!fail.empty()) fail += " after keys " + hex(sofar);
-    }
-    o.result = res;
-    if (!a.fail.empty()) o.fail(a.fail);
-    else if (!b.fail.empty()) o.fail(b.fail);
-    else if (!fail.empty()) o.fail("twins: " + fail);
-    o.tags = session::tagstr(a.tagbits);
-    o.tag("twins");
-}
-
-// ts <cap> <op>...: struct sline and igris::sline side by side on the same calls (tokens of `sl` both families have)
 static void run_ts(const std::vector<std::string> &w, out &o)
 {
     unsigned cap = (unsigned)strtoul(w[1].c_str(), 0, 10);
@@ -1395,29 +618,6 @@ static void run_ts(const std::vector<std::string> &w, out &o)
 
 // vl <c|x> <cap> <depth> <n> <seed>: one LONG session (n keys from a small LCG over the 15-byte alphabet, the same
 // generator is in Drv.lean), compared by the FNV-1a digest of every key's record
-static void run_vl(const std::vector<std::string> &w, out &o)
-{
-    bool cxx = w[1] == "x";
-    unsigned cap = (unsigned)strtoul(w[2].c_str(), 0, 10), depth = (unsigned)strtoul(w[3].c_str(), 0, 10);
-    size_t n = strtoul(w[4].c_str(), 0, 10);
-    uint64_t st = strtoull(w[5].c_str(), 0, 10);
-    session s(cxx, cap, depth, true);
-    s.want_record = false;
-    fnv d;
-    d.bytes(s.init_step());
-    for (size_t i = 0; i < n; i++)
-    {
-        st = (st * 1103515245ull + 12345ull) % 2147483648ull;
-        s.key((uint8_t)ALPHA_BYTES[(st / 65536) % 15][0]);
-        d.key(*s.v);
-    }
-    s.check_grammar(depth);
-    o.result = std::to_string(n) + " " + hv::hexn(d.h, 16);
-    if (!s.fail.empty()) o.fail(s.fail);
-    o.tags = session::tagstr(s.tagbits);
-    o.tag(n >= 300 * 1024 ? "long-session-300KiB" : "long-session");
-}
-
 static void run_op(const std::vector<std::string> &w, const std::string &, out &o)
 {
     if (w.empty()) { o.result = "bad-op"; return; }
@@ -1435,12 +635,14 @@ static void run_op(const std::vector<std::string> &w, const std::string &, out &
     if (op == "lh" && w.size() == 6) return run_lh(w, o);
     if (op == "tw" && w.size() == 5) return run_tw(w, o);
     if (op == "ts" && w.size() >= 2) return run_ts(w, o);
-    if (op == "consts2") { o.result = consts2_c(); return; }
+    if (op == "consts2") { o.result = consts2_c(o.tags); return; }
     if (op == "premain" && w.size() == 2)
     {
         if (w[1] != hex(std::string(PREMAIN_KEYS))) { o.result = "bad-op"; return; }
-        o.result = premain_obj.result;
-        if (!premain_obj.fail.empty()) o.fail("before main(): " + premain_obj.fail);
+        std::string pr, pf;
+        premain_report(pr, pf);
+        o.result = pr;
+        if (!pf.empty()) o.fail("before main(): " + pf);
         o.tag("before-main");
         return;
     }
@@ -1448,451 +650,14 @@ static void run_op(const std::vector<std::string> &w, const std::string &, out &
 }
 
 // ===================================================================== gen
-static void emit(const std::string &s) { puts(s.c_str()); }
-
-static std::string hx(const std::string &s) { return hex(s); }
-
-// a "mostly valid" typing session: words, edits in the middle, recalls, over-long lines
-static std::string typing(hv::rng &r, unsigned cap, unsigned depth, size_t maxkeys, bool wide)
-{
-    static const std::string UP = "\x1b[A", DOWN = "\x1b[B", LEFT = "\x1b[D", RIGHT = "\x1b[C", DEL = "\x1b[3~";
-    std::string k;
-    auto letters = [&](size_t n)
-    {
-        for (size_t i = 0; i < n; i++)
-            k.push_back(wide ? (char)r.range(0x20, 0x7e) : (char)('a' + r.below(r.chance(70) ? 3 : 26)));
-    };
-    int nl = (int)r.below(4); // newline style of this session: CR, LF, CRLF, LFCR
-    auto enter = [&]()
-    {
-        int s = r.chance(85) ? nl : (int)r.below(4);
-        k += s == 0 ? "\r" : s == 1 ? "\n" : s == 2 ? "\r\n" : "\n\r";
-    };
-    while (k.size() < maxkeys)
-    {
-        unsigned p = (unsigned)r.below(100);
-        if (p < 22) letters(r.range(1, 3));
-        else if (p < 28) letters(r.chance(50) ? cap - 1 : r.range(cap - 2 > 0 ? cap - 2 : 0, cap + 3)); // fill / overfill
-        else if (p < 40) enter();
-        else if (p < 50) { size_t n = r.range(1, depth + 2); for (size_t i = 0; i < n; i++) k += UP; }
-        else if (p < 56) { size_t n = r.range(1, depth + 1); for (size_t i = 0; i < n; i++) k += DOWN; }
-        else if (p < 68) { size_t n = r.range(1, r.chance(20) ? cap + 1 : 3); for (size_t i = 0; i < n; i++) k += LEFT; }
-        else if (p < 75) { size_t n = r.range(1, 3); for (size_t i = 0; i < n; i++) k += RIGHT; }
-        else if (p < 83) { size_t n = r.range(1, r.chance(15) ? cap + 1 : 2); k.append(n, '\x08'); }
-        else if (p < 89) k += DEL;
-        else if (p < 92) k.push_back('\x03');
-        else if (p < 94) { k += "\x1b"; k.push_back((char)r.range(0x20, 0x7e)); }             // unknown ESC x
-        else if (p < 96) { k += "\x1b["; k.push_back("EFGHZ012456789~;?"[r.below(17)]); }      // unknown ESC [ x
-        else if (p < 97) { k += "\x1b[3"; k.push_back(r.chance(50) ? '~' : (char)r.range(0x20, 0x7e)); }
-        else if (p < 98) k += r.chance(50) ? "\x1b\x1b[A" : "\x1b\x03[A";
-        else if (p < 99) { k += "\x1b"; enter(); }
-        else k.push_back("\x1b[ABCD3~"[r.below(8)]);
-    }
-    return k.substr(0, maxkeys);
-}
-
-// raw bytes, any value (NUL rarely), control keys frequent
-static std::string noise(hv::rng &r, size_t n)
-{
-    static const std::string hot = "\x08\r\n\x1b[ABCD3~\x03\x7f\t";
-    std::string k;
-    for (size_t i = 0; i < n; i++)
-        k.push_back(r.chance(55) ? hot[r.below(hot.size())] : r.chance(80) ? (char)r.range(0x20, 0x7e) : (char)r.range(r.chance(10) ? 0 : 1, 255));
-    return k;
-}
-
-static void gen_sl_exhaustive(unsigned cap, unsigned L, const char *var)
-{
-    static const std::vector<std::string> toks = {"p61", "p62", "n6364", "n65666768", "n-", "b1", "b2", "d1", "d2", "l", "r", "z", "g"};
-    std::vector<size_t> idx(L, 0);
-    for (;;)
-    {
-        std::string s = std::string("sl ") + var + " " + std::to_string(cap);
-        for (size_t i : idx) s += " " + toks[i];
-        emit(s);
-        size_t p = L;
-        while (p > 0 && ++idx[p - 1] == toks.size()) idx[--p] = 0;
-        if (p == 0) break;
-    }
-}
-
-static uint64_t gen_seed = 1;
-static void gen(hv::rng &r, const std::string &tier)
-{
-    bool th = tier == "thorough";
-    const char *VAR[2] = {"c", "x"};
-    emit("consts");
-    // capacity 0 is outside the contract (sline_getline needs one byte for the terminator): recorded finding
-    // (the two probes `sl c 0 p61`, `sl x 0 g` of the capacity-zero finding are ordinary ops since the sline half
-    //  was repaired: see round 3 below)
-    // ---- sline: exhaustive short op histories, then long random ones
-    // (the seed picks the capacity that gets the deepest tree, see the key trees below)
-    for (unsigned cap = 2; cap <= 4; cap++)
-        gen_sl_exhaustive(cap, th && cap == 2 + gen_seed % 3 ? 5 : 4, VAR[cap & 1]);
-    gen_sl_exhaustive(3, 3, "x");
-    gen_sl_exhaustive(2, 3, "x");
-    // (ext) sline_newdata with an explicit int length <= 0 or shorter than the data (C family), and the raw
-    // accessors of igris::sline: clear, set_size_and_cursor with valid arguments (C++ family): exhaustive short histories
-    {
-        static const std::vector<std::string> tc = {"p61", "N-1:6263", "N0:62", "N1:6263", "N2:6263", "N-2147483648:61", "l", "b1", "g"};
-        for (unsigned cap = 2; cap <= 4; cap++)
-        {
-            std::vector<size_t> idx(cap == 4 ? 3 : 4, 0);
-            for (;;)
-            {
-                std::string s = "sl c " + std::to_string(cap);
-                for (size_t i : idx) s += " " + tc[i];
-                emit(s);
-                size_t p = idx.size();
-                while (p > 0 && ++idx[p - 1] == tc.size()) idx[--p] = 0;
-                if (p == 0) break;
-            }
-        }
-        for (unsigned cap = 2; cap <= 4; cap++)
-        {
-            std::vector<std::string> tx = {"p61", "p62", "n6364", "c", "l", "d1", "g", "s0,0"};
-            for (unsigned l = 1; l < cap; l++)
-                for (unsigned c = 0; c <= l; c++) tx.push_back("s" + std::to_string(l) + "," + std::to_string(c));
-            std::vector<size_t> idx(cap == 4 ? 3 : 4, 0);
-            for (;;)
-            {
-                std::string s = "sl x " + std::to_string(cap);
-                for (size_t i : idx) s += " " + tx[i];
-                emit(s);
-                size_t p = idx.size();
-                while (p > 0 && ++idx[p - 1] == tx.size()) idx[--p] = 0;
-                if (p == 0) break;
-            }
-        }
-    }
-    for (int i = 0; i < (th ? 6000 : 1200); i++)
-    {
-        unsigned cap = (unsigned)r.range(2, r.chance(85) ? 12 : 40);
-        bool vx = r.below(2);
-        bool ext = r.chance(35); // histories that also use the calls added by the extension
-        std::string s = std::string("sl ") + VAR[vx] + " " + std::to_string(cap);
-        size_t n = r.range(1, 60);
-        for (size_t j = 0; j < n; j++)
-        {
-            unsigned p = (unsigned)r.below(100);
-            if (ext && r.chance(15))
-            {
-                if (!vx)
-                {
-                    size_t m = r.range(0, 5);
-                    std::string d;
-                    for (size_t q = 0; q < m; q++) d.push_back((char)r.range(0x41, 0x5a));
-                    long nn = r.chance(30) ? -(long)r.range(1, 3) : r.chance(5) ? -2147483647L - 1 : (long)r.below(m + 1);
-                    s += " N" + std::to_string(nn) + ":" + hx(d);
-                }
-                else if (r.chance(30)) s += " c";
-                else
-                {
-                    unsigned l = (unsigned)r.below(cap), c = (unsigned)r.below(l + 1);
-                    s += " s" + std::to_string(l) + "," + std::to_string(c);
-                }
-                continue;
-            }
-            if (p < 25) s += " p" + hv::hexn(r.chance(2) ? 0 : r.range(0x61, 0x7a), 2);
-            else if (p < 40)
-            {
-                size_t m = r.chance(30) ? r.range(cap - 1, cap + 3) : r.range(0, 4);
-                std::string d;
-                for (size_t q = 0; q < m; q++) d.push_back((char)r.range(0x41, 0x5a));
-                s += " n" + hx(d);
-            }
-            else if (p < 52) s += " b" + std::to_string(r.chance(25) ? r.range(cap - 1, cap + 2) : r.range(0, 2));
-            else if (p < 62) s += " d" + std::to_string(r.chance(25) ? r.range(cap - 1, cap + 2) : r.range(0, 2));
-            else if (p < 78) s += " l";
-            else if (p < 88) s += " r";
-            else if (p < 91) s += " z";
-            else if (p < 97) s += " g";
-            else s += " e" + hx(std::string(r.below(3), 'a'));
-        }
-        emit(s);
-    }
-    // ---- readline automaton alone (return codes), history depth 0 = no history buffer
-    for (int i = 0; i < (th ? 4000 : 800); i++)
-    {
-        unsigned cap = (unsigned)r.range(2, 12), depth = (unsigned)r.range(0, 4);
-        size_t n = r.chance(10) ? 400 : r.range(1, 80);
-        std::string k = r.chance(75) ? typing(r, cap, depth ? depth : 1, n, r.chance(20)) : noise(r, n);
-        for (char &c : k) if (c == 3) c = 'q'; // at this level 0x03 is an ordinary character: keep the streams comparable
-        emit(std::string("rl ") + VAR[r.below(2)] + " " + std::to_string(cap) + " " + std::to_string(depth) + " " + hx(k));
-    }
-    // ---- (ext) readline_linecpy / igris::readline::linecpy after a typing session: destination sizes 0 .. cap + 3
-    for (unsigned cap = 2; cap <= 4; cap++)
-        for (unsigned maxlen = 0; maxlen <= cap + 1; maxlen++)
-            for (unsigned typed = 0; typed <= cap; typed++)
-                for (int var = 0; var < 2; var++)
-                    emit(std::string("lc ") + VAR[var] + " " + std::to_string(cap) + " 1 " + std::to_string(maxlen) + " " + hx(std::string("abcde").substr(0, typed)));
-    for (int i = 0; i < (th ? 2000 : 400); i++)
-    {
-        unsigned cap = (unsigned)r.range(2, 12), depth = (unsigned)r.range(0, 2);
-        std::string k = typing(r, cap, depth ? depth : 1, r.range(0, 40), r.chance(20));
-        for (char &c : k) if (c == 3) c = 'q';
-        size_t maxlen = r.chance(15) ? 0 : r.chance(40) ? r.range(1, 3) : r.range(1, cap + 3);
-        emit(std::string("lc ") + VAR[r.below(2)] + " " + std::to_string(cap) + " " + std::to_string(depth) + " " + std::to_string(maxlen) + " " + hx(k));
-    }
-    // ---- terminal: every byte sequence of length 3 over the 15-byte alphabet, listed one by one
-    for (int var = 0; var < 2; var++)
-        for (size_t a = 0; a < 15; a++)
-            for (size_t b = 0; b < 15; b++)
-                for (size_t c = 0; c < 15; c++)
-                    emit(std::string("vt ") + VAR[var] + (var ? " 3 2 1 " : " 2 1 1 ") + hx(ALPHA_BYTES[a] + ALPHA_BYTES[b] + ALPHA_BYTES[c]));
-    // ---- terminal: whole trees of key sequences as digests (op = 2-token prefix + every extension of <= L tokens).
-    // The trees do not depend on random choices; the seed only selects which configuration gets the deepest tree
-    // (thorough runs seeds s*1000+0..7, so the eight runs cover all eight / sixteen configurations).
-    {
-        struct cfg { unsigned cap, depth; };
-        const std::vector<cfg> small = {{2, 1}, {3, 1}, {3, 2}, {4, 2}};
-        const std::vector<cfg> mid = {{2, 1}, {3, 1}, {3, 2}, {4, 1}, {4, 2}, {5, 3}, {4, 4}, {6, 2}};
-        unsigned k = (unsigned)(gen_seed % 8);
-        auto tree = [&](int var, cfg c, int alpha, unsigned L)
-        {
-            const auto &A = alpha ? ALPHA_KEYS : ALPHA_BYTES;
-            for (size_t a = 0; a < A.size(); a++)
-                for (size_t b = 0; b < A.size(); b++)
-                    emit(std::string("vtx ") + VAR[var] + " " + std::to_string(c.cap) + " " + std::to_string(c.depth) + " " + std::to_string(alpha) + " " + std::to_string(L) + " " + hx(A[a] + A[b]));
-        };
-        // 15-byte alphabet: every sequence up to length 4 in all 8 configurations, up to 5 (thorough 6) in one
-        for (unsigned i = 0; i < 8; i++)
-            tree(i & 1, small[i / 2], 0, i == k ? (th ? 4 : 3) : 2);
-        // 11 whole keys: every sequence up to length 4 in all 16 configurations, up to 5 (thorough 6) in two
-        for (unsigned i = 0; i < 16; i++)
-            tree(i & 1, mid[i / 2], 1, (i % 8) == k ? (th ? 4 : 3) : 2);
-    }
-    // ---- terminal: random sessions up to 400 keys, cap 2..12, depth 1..4
-    for (int i = 0; i < (th ? 12000 : 2500); i++)
-    {
-        unsigned cap = (unsigned)r.range(2, 12), depth = (unsigned)r.range(1, 4);
-        size_t n = r.chance(8) ? 400 : r.chance(50) ? r.range(1, 40) : r.range(40, 160);
-        std::string k = r.chance(80) ? typing(r, cap, depth, n, r.chance(25)) : noise(r, n);
-        emit(std::string("vt ") + VAR[r.below(2)] + " " + std::to_string(cap) + " " + std::to_string(depth) + (r.chance(6) ? " 0 " : " 1 ") + hx(k));
-    }
-    // ---- a few wide configurations (two-digit cursor moves, deep history)
-    for (int i = 0; i < (th ? 600 : 120); i++)
-    {
-        unsigned cap = (unsigned)r.range(13, 130), depth = (unsigned)r.range(1, 9);
-        std::string k = typing(r, cap, depth, r.range(50, 400), true);
-        emit(std::string("vt ") + VAR[r.below(2)] + " " + std::to_string(cap) + " " + std::to_string(depth) + " 1 " + hx(k));
-    }
-    // ---- very deep history rings (history_size is a uint8_t: depths up to 255, index arithmetic near 256):
-    // many distinct short lines, then recalls at every depth.  Added after seeded change C15-history-index-uint8
-    // (ring index computed in 8 bits) was missed: it needs depth >= 129.
-    // (ext) depths >= 256 too: the ring indices were uint8_t (fix: unsigned int), 256 divided by zero in C and
-    // the browse index wrapped in C++.
-    for (int i = 0; i < (th ? 170 : 32); i++)
-    {
-        static const unsigned DEPTHS[] = {255, 254, 200, 129, 128, 127, 130, 192, 250, 160, 100, 64, 256, 256, 257, 300, 511, 512, 260, 1000};
-        const int NFIX = th ? 20 : 19;
-        unsigned depth = i < NFIX ? DEPTHS[i] : (unsigned)r.range(65, r.chance(25) ? 400 : 255);
-        unsigned cap = (unsigned)r.range(5, 9);
-        size_t nlines = r.chance(50) && depth < 256 ? r.range(1, 70) : r.range(depth > 20 ? depth - 20 : 1, depth + 30);
-        std::string k;
-        size_t entered = 0;
-        auto line = [&]()
-        {
-            // distinct 4-character lines (base-26 counter with a random first letter)
-            size_t v = entered++;
-            k.push_back((char)('a' + r.below(26)));
-            for (int d = 0; d < 3; d++) { k.push_back((char)('a' + v % 26)); v /= 26; }
-            k += "\r";
-        };
-        for (size_t j = 0; j < nlines; j++) line();
-        for (int round = 0; round < 6; round++)
-        {
-            size_t ups = r.chance(30) ? 1 : r.chance(50) ? r.range(1, 8) : r.range(1, (entered < depth ? entered : depth) + 2);
-            if (depth >= 256 && round == 0) ups = (entered < depth ? entered : depth) + 2; // to the oldest line and beyond
-            for (size_t j = 0; j < ups; j++) k += "\x1b[A";
-            size_t downs = r.below(ups + 2);
-            for (size_t j = 0; j < downs; j++) k += "\x1b[B";
-            if (r.chance(60)) k += "\r";          // accept the recalled line (duplicate-of-last check)
-            else k.push_back('\x03');
-            if (r.chance(50)) line();
-        }
-        emit(std::string("vt ") + VAR[i < NFIX && i >= 12 ? (i & 1) : r.below(2)] + " " + std::to_string(cap) + " " + std::to_string(depth) + " 1 " + hx(k));
-    }
-
-    // =================================================================== round 3
-    emit("consts2");
-    emit("premain " + hx(std::string(PREMAIN_KEYS)));
-    // ---- a line without a buffer (cap 0: safe at the sline level since the two fixes) and the smallest buffer (cap 1)
-    emit("sl c 0 p61");
-    emit("sl x 0 g");
-    emit("sl c 0 p61 g N2:6162 n6162 b1 d1 l r z g e-");
-    emit("sl x 0 p61 g n6162 b1 d1 l r z c g");
-    emit("@F:C15-capacity-zero rl c 0 1 1b5b41");
-    gen_sl_exhaustive(0, 3, "c");
-    gen_sl_exhaustive(0, 2, "x");
-    gen_sl_exhaustive(1, 3, "c");
-    gen_sl_exhaustive(1, 3, "x");
-    // ---- buffers of 2^31 - 1 .. 2^32 - 1 bytes (lazily mapped; the line stays short): every call but the bulk
-    //      insert, which misjudges the room there (finding C15-newdata-2g); the bulk insert just below 2^31
-    for (const char *cap : {"2147483647", "2147483648", "2147483649", "4294967295"})
-        emit(std::string("sl c ") + cap + " p61 p62 p63 l l p64 b1 d1 r g e6164 z p65 g");
-    emit("sl c 2147483647 p61 N2:6263 n6465 l N1:66 g");
-    emit("sl c 16777217 p61 N2:6263 n6465 l N1:66 N-1:67 g");
-    emit("sl x 4 Z2:616263 Z2147483647:61626364 g");
-    emit("sl x 6 p61 l Z1:6263 Z0:64 Z2147483647:6566676869 g");
-    emit("@F:C15-newdata-2g sl c 2147483649 N2:6162");
-    emit("@F:C15-newdata-2g sl c 2147483648 N1:62");
-    emit("@F:C15-newdata-2g sl x 4 Z2147483648:61626364");
-    // ---- twins, directly against each other: struct sline / igris::sline on the same calls
-    {
-        static const std::vector<std::string> tk = {"p61", "p62", "n6364", "n65666768", "N1:6364", "N-1:63", "b1", "d1", "l", "r", "z", "g", "e61"};
-        for (unsigned cap = 2; cap <= 3; cap++)
-            for (size_t a = 0; a < tk.size(); a++)
-                for (size_t b = 0; b < tk.size(); b++)
-                    for (size_t c = 0; c < tk.size(); c++)
-                        emit("ts " + std::to_string(cap) + " " + tk[a] + " " + tk[b] + " " + tk[c]);
-        for (int i = 0; i < (th ? 1500 : 250); i++)
-        {
-            unsigned cap = (unsigned)r.range(1, 12);
-            std::string s = "ts " + std::to_string(cap);
-            size_t n = r.range(1, 40);
-            for (size_t j = 0; j < n; j++)
-            {
-                unsigned p = (unsigned)r.below(100);
-                if (p < 30) s += " p" + hv::hexn(r.range(0x61, 0x7a), 2);
-                else if (p < 45)
-                {
-                    size_t m = r.chance(30) ? r.range(cap - 1, cap + 3) : r.range(0, 4);
-                    std::string d;
-                    for (size_t q = 0; q < m; q++) d.push_back((char)r.range(0x41, 0x5a));
-                    s += (r.chance(50) ? " n" + hx(d) : " N" + std::to_string((long)r.below(m + 2) - 1) + ":" + hx(d + "Z"));
-                }
-                else if (p < 55) s += " b" + std::to_string(r.range(0, 3));
-                else if (p < 65) s += " d" + std::to_string(r.range(0, 3));
-                else if (p < 80) s += " l";
-                else if (p < 90) s += " r";
-                else if (p < 93) s += " z";
-                else s += " g";
-            }
-            emit(s);
-        }
-    }
-    // ---- vterm.c / igris::vtermxx directly against each other (every pair of the byte alphabet, random sessions,
-    //      history depth 0 = no history included)
-    for (size_t a = 0; a < 15; a++)
-        for (size_t b = 0; b < 15; b++)
-            emit("tw 3 1 1 " + hx(ALPHA_BYTES[a] + ALPHA_BYTES[b]));
-    for (int i = 0; i < (th ? 1500 : 250); i++)
-    {
-        unsigned cap = (unsigned)r.range(2, 12), depth = (unsigned)r.range(r.chance(15) ? 0 : 1, 4);
-        size_t n = r.chance(5) ? 300 : r.range(1, 80);
-        std::string k = r.chance(80) ? typing(r, cap, depth ? depth : 1, n, r.chance(25)) : noise(r, n);
-        emit("tw " + std::to_string(cap) + " " + std::to_string(depth) + (r.chance(6) ? " 0 " : " 1 ") + hx(k));
-    }
-    // ---- history depth 0: vterm_automate_init(..., hbuffer, 0) / vtermxx::init(cap, 0) = a terminal without history
-    for (int var = 0; var < 2; var++)
-    {
-        emit(std::string("vt ") + VAR[var] + " 4 0 1 " + hx("ab\rab\r\x1b[A\x1b[B" "c\r"));
-        emit(std::string("vt ") + VAR[var] + " 2 0 1 " + hx("a\r\n\x1b[A\x1b[A\x03" "b\n"));
-    }
-    for (int i = 0; i < (th ? 300 : 60); i++)
-    {
-        unsigned cap = (unsigned)r.range(2, 10);
-        std::string k = typing(r, cap, 2, r.range(1, 120), r.chance(25));
-        emit(std::string("vt ") + VAR[r.below(2)] + " " + std::to_string(cap) + " 0 1 " + hx(k));
-    }
-    // ---- one object, everything a caller can do between keys: every script of <= 3 (C++: 2) tokens, random scripts
-    {
-        static const std::vector<std::string> tk = {"k61", "cc3", "c80", "cfe", "c7f", "i-1", "i353", "i-128", "i-2", "i32767", "i-32768", "i256", "I",
-                                                    "P0724", "P3e", "P-", "E0", "E1", "k0d", "k03", "k1b5b41", "c0d"};
-        for (int var = 0; var < 2; var++)
-            for (size_t a = 0; a < tk.size(); a++)
-                for (size_t b = 0; b < tk.size(); b++)
-                {
-                    if (var) { emit("vs x 4 1 " + tk[a] + " " + tk[b] + " k620d"); continue; }
-                    for (size_t c = 0; c < tk.size(); c++)
-                        emit("vs c 4 1 " + tk[a] + " " + tk[b] + " " + tk[c] + " k620d");
-                }
-        emit("@F:C15-char-ff vs c 4 1 I cff k0d");
-        emit("@F:C15-char-ff vs x 4 1 k61 cff c0d");
-        for (int i = 0; i < (th ? 2500 : 500); i++)
-        {
-            unsigned cap = (unsigned)r.range(2, 12), depth = (unsigned)r.range(1, 3);
-            std::string s = std::string("vs ") + VAR[r.below(2)] + " " + std::to_string(cap) + " " + std::to_string(depth);
-            if (r.chance(70)) s += " I";
-            size_t n = r.range(1, 12);
-            for (size_t j = 0; j < n; j++)
-            {
-                unsigned p = (unsigned)r.below(100);
-                if (p < 35) s += " k" + hx(typing(r, cap, depth, r.range(1, 20), r.chance(25)));
-                else if (p < 60)
-                {
-                    // through a `char`: ASCII, Latin-1 / UTF-8 bytes (every value but 0xff, the recorded finding)
-                    std::string k;
-                    size_t m = r.range(1, 6);
-                    for (size_t q = 0; q < m; q++)
-                        k.push_back(r.chance(50) ? (char)r.range(0x80, 0xfe) : r.chance(30) ? "\r\n\x08\x1b[AD"[r.below(7)] : (char)r.range(0x20, 0x7e));
-                    s += " c" + hx(k);
-                }
-                else if (p < 70)
-                {
-                    static const long V[] = {-1, -2, -128, -129, -255, -256, -32768, 32767, 255, 256, 257, 0x141, 0x10d, 0x7f03, 127, 128, 0};
-                    s += " i" + std::to_string(r.chance(70) ? V[r.below(17)] : (long)r.range(0, 65535) - 32768);
-                }
-                else if (p < 78) s += " I";
-                else if (p < 90)
-                {
-                    std::string pr;
-                    size_t m = r.range(0, 5);
-                    for (size_t q = 0; q < m; q++) pr.push_back(r.chance(70) ? (char)r.range(0x20, 0x7e) : (char)r.range(1, 255));
-                    s += " P" + hx(pr);
-                }
-                else s += r.chance(50) ? " E0" : " E1";
-            }
-            // `i-1` typed as a token is the init step; a raw -1 produced above is handled the same way
-            emit(s);
-        }
-    }
-    // ---- the echoed bytes on a terminal with W columns and auto-wrap
-    {
-        auto wsess = [&](unsigned cap, size_t W, bool strict, const std::string &k, const char *pre = "")
-        {
-            emit(std::string(pre) + "vw " + VAR[r.below(2)] + " " + std::to_string(cap) + " " + std::to_string(r.range(1, 3)) + " " + std::to_string(W) + (strict ? " 1 " : " 0 ") + hx(k));
-        };
-        // full line, cursor walks, inserts in the middle, Ctrl-C at the end of a full line: the exact fit and around it
-        for (unsigned cap = 2; cap <= 6; cap++)
-            for (int dw = 0; dw <= 3; dw++)
-            {
-                std::string fill(cap + 1, 'a');
-                wsess(cap, 2 + cap + dw, false, fill + "\x03" + fill + "\x1b[D\x1b[D\x08" "b\x1b[3~\x1b[C\x1b[Cc\r" + fill + "\r\x1b[A\x1b[A\x03");
-            }
-        for (int i = 0; i < (th ? 2000 : 350); i++)
-        {
-            unsigned cap = (unsigned)r.range(2, 14);
-            static const size_t DW[] = {0, 0, 0, 1, 2, 3, 10, 66};
-            std::string k = typing(r, cap, 2, r.chance(10) ? 300 : r.range(5, 90), false);
-            wsess(cap, 2 + cap + DW[r.below(8)], false, k);
-        }
-        // narrower than prompt + line: the two terminal emulators (Lean / C++) are compared, the display is not judged
-        for (int i = 0; i < (th ? 600 : 100); i++)
-        {
-            unsigned cap = (unsigned)r.range(4, 30);
-            std::string k = typing(r, cap, 2, r.range(5, 120), false);
-            wsess(cap, r.range(2, 1 + cap), false, k);
-        }
-        emit("@F:C15-narrow-screen vw c 8 1 6 1 61626364651b5b441b5b4478");
-        emit("@F:C15-narrow-screen vw x 12 1 8 1 " + hx(std::string("abcdefghij\x1b[D\x1b[D\x1b[D\x1b[D\x1b[D\x08")));
-    }
-    // ---- readline_linecpy with a destination of 65535 .. 2^32 + 1 bytes
-    {
-        static const char *ML[] = {"255", "256", "65535", "65536", "1048576", "2147483647", "2147483648", "2147483649", "4294967295", "4294967296", "4294967297"};
-        for (const char *m : ML)
-            for (int var = 0; var < 2; var++)
-                for (unsigned typed = 0; typed <= 3; typed += 3)
-                    emit(std::string("lh ") + VAR[var] + " 5 1 " + m + " " + hx(std::string("abcdef").substr(0, typed + (typed ? 1 : 0))));
-    }
-    // ---- one long session (>= 300 KiB of keys) per variant
-    emit("vl c 6 3 310000 " + std::to_string(gen_seed));
-    emit("vl x 5 2 " + std::string(th ? "310000 " : "40000 ") + std::to_string(gen_seed + 7));
-}
+// (round 3b: the generator lives in harness/C15/gen.cpp, a translation unit of its own compiled at -O0: the
+//  compile of this file under ASan / UBSan dominated the quick tier)
+extern uint64_t c15_gen_seed;
+void c15_gen(hv::rng &r, const std::string &tier);
 
 int main(int argc, char **argv)
 {
-    if (argc >= 3) gen_seed = strtoull(argv[2], 0, 10);
-    return hv::main_(argc, argv, [](hv::rng &r, const std::string &tier) { gen(r, tier); }, run_op);
+    if (argc >= 3) c15_gen_seed = strtoull(argv[2], 0, 10);
+    return hv::main_(argc, argv, [](hv::rng &r, const std::string &tier) { c15_gen(r, tier); }, run_op);
 }
+
